@@ -162,6 +162,10 @@ class CoapAccessory:
             self.writes.append((iid, d.get(1, b"")))
             return 0, b""
         if opcode in (0x0B, 0x0C):
+            # event registrations belong to the session (a new pair-verify starts without any)
+            if self.session is not None:
+                subs = self.session.setdefault("subs", set())
+                (subs.add if opcode == 0x0B else subs.discard)(iid)
             return 0, b""
         return 1, b""
 
